@@ -1,4 +1,4 @@
-/* c14.c - C14 tokenizing: every string over {a,b,',',';'} up to length N x dmax choices x delimiter
+/* c14.c - C14 tokenizing: every string over {a,b,',',';',0xA7} up to length N x dmax choices x delimiter
  * sets, the whole call history strtok_s(s..), strtok_s(NULL..), ... against a reference tokenizer after
  * every call; thorough: per-call delimiter choice (branching history, BFS de-duplicated on
  * (buffer bytes, *ptr offset, *dmaxp)).
@@ -32,8 +32,8 @@ static unsigned long eg(const void *p, long i) { return W == 1 ? ((const unsigne
 static void es(void *p, long i, unsigned long v) { if (W == 1) ((unsigned char *)p)[i] = v; else ((uint32_t *)p)[i] = v; }
 
 /* delimiter sets */
-static const char *DSETS[] = { ",", ";", ",;", "", ",;0123456789ABCD", ",;0123456789ABCDE" };   /* last two: 16 (max allowed) and 17 chars */
-#define NDS 6
+static const char *DSETS[] = { ",", ";", ",;", "", ",;0123456789ABCD", ",;0123456789ABCDE", "\xa7", ",\xa7" };   /* 4,5: 16 (max allowed) and 17 chars; 6,7: a delimiter byte with the high bit set */
+#define NDS 8
 static void *dptr[NDS];
 static int indelim(int ds, unsigned long ch) { for (const char *p = DSETS[ds]; *p; p++) if ((unsigned long)(unsigned char)*p == ch) return 1; return 0; }
 
@@ -50,32 +50,32 @@ static void report(const char *fmt, const char *a) {
 }
 
 /* one history: string s (len L), dmax kind (0: L+1 exact, 1: L+3 slack, 2: L unterminated), delimiter sequence ds[] (cycled) */
-typedef struct { unsigned char buf[16 * 4]; long ptr_off; size_t dmax; int ref_pos; int ended; } HState;
+typedef struct { unsigned char buf[24 * 4]; long ptr_off; size_t dmax; int ref_pos; int ended; } HState;
 static int verbose;
 
 static int run_history(const unsigned char *s, int L, int dk, const int *dseq, int ndseq, int maxcalls, int branch_record, uint64_t *state_hashes, int *nstates) {
-    long obj = dk == 0 ? L + 1 : dk == 1 ? L + 3 : L;          /* elements in the object */
+    long obj = dk == 0 ? L + 1 : dk == 1 ? L + 3 : dk == 3 ? L + 6 : L;          /* elements in the object; kind 3: the tail of an older, longer record behind the terminator */
     if (obj == 0) return 0;
     size_t dmax0 = obj;
     unsigned char *buf = arena + PG + PG - obj * W;            /* flush against the trailing guard */
-    unsigned char orig[16 * 4];
-    for (long i = 0; i < obj; i++) es(buf, i, i < L ? s[i] : (i == L ? 0 : 0xAA - i));
+    unsigned char orig[24 * 4];
+    for (long i = 0; i < obj; i++) es(buf, i, i < L ? s[i] : (i == L ? 0 : dk == 3 ? (unsigned long)(unsigned char)",b;a\xa7"[i - L - 1] : 0xAA - i));
     memcpy(orig, buf, obj * W);
     /* reference */
-    unsigned char ref[16 * 4]; memcpy(ref, orig, obj * W);
+    unsigned char ref[24 * 4]; memcpy(ref, orig, obj * W);
     int pos = 0, ref_done = 0;
     size_t dmax = dmax0; void *ctx = NULL; int nullrun = 0, calls = 0;
     int unterm = dk == 2;
     for (;;) {
         int ds = dseq[calls % ndseq];
         void *first = calls == 0 ? buf : NULL;
-        h_n = 0; errno = 0; void *r = NULL; int faulted = 0;
+        h_n = 0; errno = 0; void *r = NULL; int faulted = 0; size_t dmax_before = dmax;
         if (sigsetjmp(jb, 1) == 0) { armed = 1; r = tok(first, &dmax, dptr[ds], &ctx, (size_t)-1); armed = 0; }
         else faulted = 1;
         calls++; st.n_calls++;
         if (verbose) printf("  call %d delim=\"%s\" -> ret_off=%ld *ptr_off=%ld *dmaxp=%zu errno=%d handler=%d fault=%d buf=", calls, DSETS[ds], r ? ((unsigned char *)r - buf) / W : -1L, ctx ? ((unsigned char *)ctx - buf) / W : -1L, dmax, errno, h_n, faulted);
         if (verbose) { for (long i = 0; i < obj; i++) printf("%02lx", eg(buf, i) & 0xff); printf("\n"); }
-        if (faulted) { report("touches-memory-beyond-dmax|%s", unterm ? "unterminated" : fault_w ? "terminated,write" : "terminated,read"); return 1; }
+        if (faulted) { report("touches-memory-beyond-dmax|%s", unterm ? (calls == 1 ? "unterminated" : dmax_before == 0 ? "unterminated,continuation-with-no-length-left" : "unterminated,continuation") : fault_w ? "terminated,write" : "terminated,read"); return 1; }
         if (unterm) {
             /* the remaining length handed back must never reach past the original dmax, terminated or not */
             if (ctx) {
@@ -89,7 +89,7 @@ static int run_history(const unsigned char *s, int L, int dk, const int *dseq, i
             if (dmax == 0 && r == NULL) return 0;
             continue;
         }
-        if (ds >= 5) { /* 17 delimiters: must be rejected, nothing demanded about the rest */ return 0; }
+        if (ds == 5) { /* 17 delimiters: must be rejected, nothing demanded about the rest */ return 0; }
         /* reference step */
         int exp_start = -1, exp_end = -1;
         if (!ref_done) {
@@ -128,7 +128,8 @@ static int run_history(const unsigned char *s, int L, int dk, const int *dseq, i
     }
 }
 
-static const unsigned char ALPHA[4] = { 'a', 'b', ',', ';' };
+static const unsigned char ALPHA[5] = { 'a', 'b', ',', ';', 0xa7 };
+#define NA 5
 
 int main(int argc, char **argv) {
     setvbuf(stdout, NULL, _IOLBF, 0);
@@ -156,7 +157,7 @@ int main(int argc, char **argv) {
         unsigned char s[16]; int Ls = strlen(argv[3]) / 2; for (int i = 0; i < Ls; i++) { unsigned v; sscanf(argv[3] + 2 * i, "%2x", &v); s[i] = v; }
         int dk = atoi(argv[4]); int dseq[32], nd = strlen(argv[5]); for (int i = 0; i < nd; i++) dseq[i] = argv[5][i] - '0';
         verbose = 1; snprintf(cs, sizeof cs, "%s %s %d %s", kind, argv[3], dk, argv[5]); cur_case = cs;
-        printf("string \""); for (int i = 0; i < Ls; i++) putchar(s[i]); printf("\" dmax-kind %d (0 exact, 1 slack, 2 unterminated)\n", dk);
+        printf("string \""); for (int i = 0; i < Ls; i++) putchar(s[i]); printf("\" dmax-kind %d (0 exact, 1 slack, 2 unterminated, 3 stale record tail behind the terminator)\n", dk);
         run_history(s, Ls, dk, dseq, nd, 2 * Ls + 8, 0, NULL, NULL);
         if (nsig) { printf("VERDICT violation %s\n", sigs[0]); return 1; }
         printf("VERDICT ok\n"); return 0;
@@ -165,12 +166,12 @@ int main(int argc, char **argv) {
     long idx = 0;
     uint64_t *seen = calloc(1 << 22, 8);
     for (int Ls = 0; Ls <= N; Ls++) {
-        long cnt = 1; for (int i = 0; i < Ls; i++) cnt *= 4;
+        long cnt = 1; for (int i = 0; i < Ls; i++) cnt *= NA;
         for (long c = 0; c < cnt; c++) {
             if ((idx++ % nsh) != shard) continue;
-            unsigned char s[16]; long t = c; for (int i = 0; i < Ls; i++) { s[i] = ALPHA[t % 4]; t /= 4; }
+            unsigned char s[16]; long t = c; for (int i = 0; i < Ls; i++) { s[i] = ALPHA[t % NA]; t /= NA; }
             char hx[40]; for (int i = 0; i < Ls; i++) sprintf(hx + 2 * i, "%02x", s[i]); hx[2 * Ls] = 0; if (!Ls) strcpy(hx, "");
-            for (int dk = 0; dk < 3; dk++) {
+            for (int dk = 0; dk < 4; dk++) {
                 if (!branch) {
                     for (int ds = 0; ds < NDS; ds++) {
                         snprintf(cs, sizeof cs, "%s %s %d %d", kind, Ls ? hx : "-", dk, ds); cur_case = cs;
